@@ -185,6 +185,38 @@ def encoder_modules(pvl, rng):
     return mods
 
 
+def refusal_family(pvl):
+    """Modules around what one or another encoder refuses *part-way through a
+    value*, each next to an accepted neighbour of the same shape: a refusal
+    raised in the middle of a nested value must leave nothing behind."""
+    import datetime as dt
+    col = pvl.collections
+    Q = col.Quantity
+    M = col.PVLModule
+    return [
+        M([("a", [[[1, 2], [3, 4]], [[5, 6], [7, 8]]])]),       # 3-D: ODL/PDS3 refuse
+        M([("a", [[1, 2], [3, 4]])]),                           # 2-D
+        M([("a", [1, 2, 3]), ("b", [[1], [2]])]),
+        M([("a", [])]),                                         # empty: ODL/PDS3 refuse
+        M([("a", [1, [2, [3, [4, [5]]]]])]),                    # 5 deep
+        M([("a", frozenset([frozenset([1, 2]), 3]))]),          # nested set
+        M([("a", [1, frozenset([2, 3])])]),                     # set inside a sequence
+        M([("a", frozenset([1, 2]))]),
+        M([("a", Q("text", "m")), ("b", Q(5, "m"))]),           # units on a string
+        M([("a", Q([1, 2], "m")), ("b", Q(5, "m"))]),           # units on a sequence
+        M([("a", Q(5, "m>s"))]),                                # units nobody can write
+        M([("a", dt.time(12, 0, 0, 123456)), ("b", dt.time(12, 0, 0, 123000))]),
+        M([("a", dt.time(12, 0, tzinfo=dt.timezone(dt.timedelta(hours=5)))),
+           ("b", dt.time(12, 0, tzinfo=dt.timezone.utc))]),
+        M([("a_parameter_name_longer_than_thirty_chars", 1), ("short", 2)]),
+        M([("a.b", 1), ("ok", 2)]),
+        M([("g", col.PVLGroup([("a", 1), ("h", col.PVLGroup([("b", 2)]))]))]),
+        M([("g", col.PVLGroup([("a", [1, [2, [3]]])])), ("k", [[1], [2]])]),
+        M([("a", object)]) if False else M([("a", 1 + 2j)]),    # a type nobody writes
+        M([("a", [1, 2]), ("b", [3.5, "x"])]),
+    ]
+
+
 def observe_encode(enc, module, call="encode", pvl=None, dialect=None):
     try:
         if call == "encode":
@@ -202,16 +234,23 @@ def encoder_setup(pvl, seed):
     that both sides hold the same objects."""
     rng = random.Random(f"C16-enc-{seed}")
     mods = encoder_modules(pvl, rng)
+    mods = refusal_family(pvl) + mods
     cfgs = {d: [{}, gen_config(rng, d)] for d in DIALECTS}
     return mods, cfgs
 
 
 def encoder_histories(rec, hb, pvl, tier, seed, part, nparts, pristine, mods, cfgs):
     base = len(mods) - 14      # the 14 trailing modules are the equal twins
+    nfam = len(refusal_family(pvl))   # the leading modules are the refusal family
     hists = [tuple((0, m) for m in h) for n in (2, 3)
-             for h in itertools.product(range(base), repeat=n)]
+             for h in itertools.product(range(nfam, base), repeat=n)]
     if tier == "quick":
         hists = [h for k, h in enumerate(hists) if k % 3 == 0]
+    fam = [tuple((0, m) for m in h) for h in itertools.product(range(nfam), repeat=2)]
+    fam += [((0, a), (0, b), (0, c)) for a in range(nfam) for b in range(nfam)
+            for c in range(nfam) if tier == "thorough" or (a * 7 + b * 3 + c) % 11 == 0]
+    fam += [((0, a), (0, b)) for a in range(nfam) for b in range(nfam, base)]
+    hists += fam
     for t in range(base, len(mods), 2):
         hists += [((0, t), (0, t + 1)), ((0, t + 1), (0, t)),
                   ((0, t), (0, 0), (0, t + 1)), ((0, t + 1), (0, t), (0, t + 1))]
@@ -219,7 +258,7 @@ def encoder_histories(rec, hb, pvl, tier, seed, part, nparts, pristine, mods, cf
         hists += [tuple((0, m) for m in h)
                   for h in itertools.product(range(base, len(mods)), repeat=2)]
     hists += [((c, m1), (0, m2)) for c in range(1, len(ECALLS))
-              for m1 in range(base) for m2 in range(base)]
+              for m1 in range(nfam, base) for m2 in range(nfam, base)]
     n = 0
     for dialect in DIALECTS:
         for cfg_i, cfg in enumerate(cfgs[dialect]):
